@@ -18,7 +18,9 @@ type MonC13 struct {
 	qevMulti   bool
 	preQueries map[string][]string // name -> loaded normalised queries before the step (hooks)
 	preLocked  map[string]bool
-	preRaw     map[string]map[string]bool // name -> raw queries already fetched and linked (hooks)
+	preRaw     map[string]map[string]bool  // name -> raw queries already fetched and linked (hooks)
+	preGroup   map[string]map[string]int   // name -> raw query -> index of the cached query resource it is linked to
+	preSubs    map[string]map[uintptr]bool // rid -> identities of the live connection subscriptions before the step
 }
 
 func NewMonC13() *MonC13 {
@@ -112,7 +114,10 @@ func (m *MonC13) OnStepEnd(w *World, step int) {
 			}
 			if e.Step == step && e.Kind == "mq_req" && strings.HasPrefix(e.Subject, "get.") {
 				n := e.Subject[4:]
-				if m.preRaw[n][e.Query] && !m.preLocked[n] && !released[n] && w.Cfg.ResetThrottle == 0 {
+				// A query resource without subscribers is dropped from the cache at
+				// once, so the get is redundant only if some subscription of the
+				// resource lived through the whole step.
+				if m.preRaw[n][e.Query] && !m.preLocked[n] && !released[n] && w.Cfg.ResetThrottle == 0 && m.heldThroughout(w, n, e.Query) {
 					m.viols = append(m.viols, Violation{Property: "C13", Class: "redundant_get", Step: e.Step, T: e.T, Conn: -1,
 						Message: fmt.Sprintf("get.%s with query %q requested at t=%d although that query was already fetched and linked in the cache", n, e.Query, e.T)})
 				}
